@@ -532,6 +532,15 @@ def r2(ctx, m: RespModel):
     wit = must_pass(inj.cfg, [n for c in apps for n in inj.nodes(c)])
     ctx.ob("C17.R2", "inject_event queues its event on every normal path", bool(apps) and wit is None, inj.fi.where,
            "an injected event is silently not queued", inj.describe(wit))
+    an = set(n for c in apps for n in inj.nodes(c))
+    if an:
+        before = inj.cfg.reachable([inj.cfg.entry], avoid=lambda x: x in an, exc=False)
+        bad = sorted((x for x in before if cfg_node_fallible(inj.cfg, x)
+                      and normal_path(inj.cfg, [x], lambda y: y in an) is not None),
+                     key=lambda x: getattr(x.ast, "lineno", 0))
+        ctx.ob("C17.R2", "inject_event queues its event before anything that can fail", not bad, inj.fi.where,
+               ("`" + norm(cfg_node_expr(inj.cfg, bad[0]))[:100] + "` runs before the event is queued: if the wake-up "
+                "fails the injected event is lost although only its prompt delivery depended on it") if bad else "")
 
 
 # --------------------------------------------------------------------------- R3
